@@ -789,7 +789,7 @@ def run_sweep(d):
 # ------------------------------------------------------------------------------------------------
 # sub-check `multi`: both same-kind targets together, one range, several presentations
 # ------------------------------------------------------------------------------------------------
-STEER = not os.environ.get("C10_NO_STEER")  # development switch: look at the recorded findings unsteered
+STEER = bool(os.environ.get("C10_STEER"))  # F13 is fixed in /repo: no steering unless explicitly requested
 
 
 @st.composite
